@@ -9,7 +9,7 @@ use std::cell::RefCell;
 use std::collections::{BTreeMap, BTreeSet};
 use std::io::Read;
 use std::ops::Bound;
-use std::sync::{Arc, Condvar, Mutex, Once};
+use std::sync::{Arc, Condvar, Mutex};
 use std::time::Duration;
 
 use cassadilia::verif::{HELD_INTENTS, HELD_STATE_ANY, HELD_STATE_EXCL, HELD_WAL, WANT_INTENTS, WANT_NONE, WANT_STATE_R, WANT_STATE_W, WANT_WAL};
@@ -135,17 +135,27 @@ thread_local! {
     static CUR: RefCell<Option<(Arc<Sess>, usize)>> = const { RefCell::new(None) };
 }
 
-static HOOK: Once = Once::new();
+static HOOK_LOCK: Mutex<bool> = Mutex::new(false);
 
 pub fn install_hook() {
-    HOOK.call_once(|| {
+    let mut g = HOOK_LOCK.lock().unwrap();
+    if !*g {
         cassadilia::verif::set_hook(Some(Arc::new(|name: &'static str, want: u8| {
             let cur = CUR.with(|c| c.borrow().clone());
             if let Some((sess, id)) = cur {
                 sess.park(id, name, want);
             }
         })));
-    });
+        *g = true;
+    }
+}
+
+/// Free-running stress parts run without any hook: even a pass-through hook costs a shared lock
+/// and an Arc clone per yield point, which perturbs exactly the timing windows they look for.
+pub fn remove_hook() {
+    let mut g = HOOK_LOCK.lock().unwrap();
+    cassadilia::verif::set_hook(None);
+    *g = false;
 }
 
 impl Sess {
